@@ -188,7 +188,12 @@ class ProgGen:
         out.append(f'{ind}{s} = accfg.setup "{name}" to ({", ".join(params)}) : {st}')
         if self.r.random() < 0.85:
             t = self.fresh("t")
+            lfields = list(lfields)
+            if len(lfields) > 1 and self.r.random() < 0.4:
+                self.r.shuffle(lfields)      # param_names need not follow the declaration order
             lvs = [self.r.choice(["%lv", "%lv", "%lw"]) for _ in lfields]
+            if len(lfields) > 1 and self.r.random() < 0.5:
+                lvs[0], lvs[1] = "%lv", "%lw"
             names = ", ".join(f'"{f}"' for f in lfields)
             tys = ", ".join(["i5"] * len(lfields) + [st])
             out.append(f'{ind}{t} = "accfg.launch"({", ".join(lvs + [s])}) <{{param_names = [{names}], '
@@ -455,7 +460,12 @@ def src_block(block, data, body=False):
             out.append(["setup", op.accelerator.data,
                         [[n, var_id(v, data), isinstance(v.type, builtin.IndexType)] for n, v in op.iter_params()]])
         elif isinstance(op, accfg.LaunchOp):
-            out.append(["launch", op.accelerator.data, [[n, var_id(v, data)] for n, v in op.iter_params()]])
+            ga = launch_group_attrs(op) if op.accelerator.data in _GACC else None
+            if ga is not None:
+                out.append(["launchg", op.accelerator.data, [[n, var_id(v, data)] for n, v in op.iter_params()],
+                            _GACC[op.accelerator.data], ga[0], ga[1], ga[2]])
+            else:
+                out.append(["launch", op.accelerator.data, [[n, var_id(v, data)] for n, v in op.iter_params()]])
         elif isinstance(op, accfg.AwaitOp):
             out.append(["await", op.token.type.accelerator.data])
         elif isinstance(op, scf.IfOp):
@@ -477,6 +487,23 @@ def _const_val(v):
     raise ConvError("address operand is not an arith.constant")
 
 
+def eval_created(v, data, depth=0):
+    """value of a tree of lowering-created constants / shli / ori (pack_bitlist) as an unsigned 32-bit word"""
+    from xdsl.dialects import arith
+    o = v.owner
+    if depth > 16 or not (hasattr(o, "results") and _created(o, data)):
+        raise ConvError("computed csr value depends on something the lowering did not create")
+    if isinstance(o, arith.ConstantOp):
+        return o.value.value.data
+    if str(v.type) != "i32":
+        raise ConvError("computed csr value is not i32")
+    if isinstance(o, arith.ShLIOp):
+        return ((eval_created(o.lhs, data, depth + 1) & 0xFFFFFFFF) << eval_created(o.rhs, data, depth + 1)) & 0xFFFFFFFF
+    if isinstance(o, arith.OrIOp):
+        return (eval_created(o.lhs, data, depth + 1) & 0xFFFFFFFF) | (eval_created(o.rhs, data, depth + 1) & 0xFFFFFFFF)
+    raise ConvError(f"unexpected op {o.name} in a computed csr value")
+
+
 def _created(op, data):
     """op was created by the lowering (its results carry no data name)"""
     return all(r.name_hint not in data for r in op.results)
@@ -493,8 +520,9 @@ def tgt_block(block, data, body=False):
     for op in ops:
         if isinstance(op, arith.ConstantOp) and _created(op, data):
             for u in op.result.uses:
-                if not isinstance(u.operation, (llvm.InlineAsmOp,)):
-                    raise ConvError("lowering-created constant used by a non-asm op")
+                if not (isinstance(u.operation, llvm.InlineAsmOp)
+                        or (isinstance(u.operation, (arith.ShLIOp, arith.OrIOp)) and _created(u.operation, data))):
+                    raise ConvError("lowering-created constant used by an op the lowering did not create")
             continue
         if isinstance(op, arith.IndexCastOp) and _created(op, data):
             uses = list(op.result.uses)
@@ -517,8 +545,15 @@ def tgt_block(block, data, body=False):
                     val, vty = _const_val(v)
                     if addr == 965 and val == 0 and cons == "I, K" and str(aty) == "i12" and str(vty) == "i5":
                         out.append(["clear"])
+                    elif cons == "I, rK":
+                        out.append(["csrwc", addr, val])        # a constant the lowering materialised
                     else:
-                        raise ConvError(f"csrw of a lowering-created constant {addr} <- {val}")
+                        raise ConvError(f"csrw of a lowering-created constant {addr} <- {val} with constraints {cons}")
+                    continue
+                if isinstance(v.owner, (arith.ShLIOp, arith.OrIOp)) and _created(v.owner, data):
+                    if cons != "I, rK":
+                        raise ConvError(f"csrw of a computed value with constraints {cons}")
+                    out.append(["csrwc", addr, eval_created(v, data)])
                     continue
                 cast = False
                 if isinstance(v.owner, arith.IndexCastOp) and _created(v.owner, data):
@@ -595,10 +630,37 @@ def make_ctx(accs):
     ctx = snaxrun.fresh_ctx()
     for a in accs:
         name = ACC_NAME[a["acc"]]
-        if name not in set(ctx.registered_accelerator_names):
-            obj = build_acc(a)
-            ctx.register_accelerator(name, (lambda o: (lambda: o))(obj))
+        obj = build_acc(a)
+        # replace a default registration: SNAXGEMMXAccelerator.lower_acc_launch uses `self.n` and
+        # `self.generate_acc_op()` of the REGISTERED instance, which in the compiler is the one the declaration in
+        # the module was generated from
+        ctx._registered_accelerators[name] = (lambda o: (lambda: o))(obj)
     return ctx
+
+
+def group_accs(accs):
+    """accelerators whose class lowers a launch carrying mult_vals/shift_vals/m per channel group -> array width n"""
+    from snaxc.accelerators.snax_gemmx import SNAXGEMMXAccelerator
+    out = {}
+    for a in accs:
+        obj = build_acc(a)
+        if isinstance(obj, SNAXGEMMXAccelerator):
+            out[ACC_NAME[a["acc"]]] = obj.n
+    return out
+
+
+def launch_group_attrs(op):
+    """(m, shift_vals, mult_vals) of a launch op that carries channel-group attributes, else None"""
+    if "mult_vals" not in op.attributes:
+        return None
+    try:
+        return (op.attributes["m"].value.data, list(op.attributes["shift_vals"].get_values()),
+                list(op.attributes["mult_vals"].get_values()))
+    except (KeyError, AttributeError) as e:
+        raise ConvError(f"launch with mult_vals but without well-formed m / shift_vals: {e}")
+
+
+_GACC = {}
 
 
 def module_decls(module, accs):
@@ -638,6 +700,10 @@ def run_ir(block, env, m):
             env[op.result] = _val(env, op.lhs) + _val(env, op.rhs)
         elif isinstance(op, arith.IndexCastOp):
             env[op.result] = _val(env, op.input)
+        elif isinstance(op, arith.ShLIOp):
+            env[op.result] = ((_val(env, op.lhs) & 0xFFFFFFFF) << _val(env, op.rhs)) & 0xFFFFFFFF
+        elif isinstance(op, arith.OrIOp):
+            env[op.result] = (_val(env, op.lhs) & 0xFFFFFFFF) | (_val(env, op.rhs) & 0xFFFFFFFF)
         elif isinstance(op, arith.CmpiOp):
             if op.predicate.value.data != 1:
                 raise NotImplementedError("cmpi predicate")
@@ -647,8 +713,36 @@ def run_ir(block, env, m):
                 m["ev"].append(("F", op.accelerator.data, n, _val(env, v)))
             env[op.out_state] = "state"
         elif isinstance(op, accfg.LaunchOp):
-            for n, v in op.iter_params():
-                m["ev"].append(("L", op.accelerator.data, n, _val(env, v)))
+            acc = op.accelerator.data
+            ga = launch_group_attrs(op) if acc in m.get("gacc", {}) else None
+            if ga is None:
+                for n, v in op.iter_params():
+                    m["ev"].append(("L", acc, n, _val(env, v)))
+            else:
+                # reference meaning of a channel-group launch (what the hardware must see): M / temporal_loop_bound
+                # = m // groups, the streamer is started once, then every group of n output channels is run with
+                # ITS shift words and multipliers in the shift_* / mult_* registers.  Events tagged "G" are writes
+                # the launch itself performs; "GEND" closes the op.
+                gm, shifts, mults = ga
+                n = m["gacc"][acc]
+                vals = dict((k, _val(env, v)) for k, v in op.iter_params())
+                groups = len(mults) // n
+                new_m = gm // groups
+                m["ev"].append(("F", acc, "M", new_m, "G"))
+                m["ev"].append(("F", acc, "temporal_loop_bound", new_m, "G"))
+                m["ev"].append(("L", acc, "launch_streamer", vals["launch_streamer"], "GS"))
+                for g in range(groups):
+                    sh = shifts[g * n:g * n + n]
+                    for j in range(0, len(sh), 4):
+                        word = 0
+                        for k, x in enumerate(sh[j:j + 4]):
+                            word |= ((x & 0xFFFFFFFF) << (8 * k)) & 0xFFFFFFFF
+                        m["ev"].append(("F", acc, f"shift_{j // 4}", word, "G"))
+                    for j, x in enumerate(mults[g * n:g * n + n]):
+                        m["ev"].append(("F", acc, f"mult_{j}", x, "G"))
+                    m["ev"].append(("L", acc, "launch_gemmx", vals["launch_gemmx"], "GG"))
+                    m["ev"].append(("A", acc))
+                m["ev"].append(("GEND", acc))
             env[op.token] = "token"
         elif isinstance(op, accfg.AwaitOp):
             m["ev"].append(("A", op.token.type.accelerator.data))
@@ -711,9 +805,9 @@ def run_ir(block, env, m):
 ENVS = [(c0, c1, t) for c0 in (0, 1) for c1 in (0, 1) for t in ((0, 0, 1), (0, 2, 1), (1, 7, 3))]
 
 
-def run_func(f, envidx):
+def run_func(f, envidx, gacc=None):
     c0, c1, (lb, ub, st) = ENVS[envidx]
-    m = {"ev": []}
+    m = {"ev": [], "gacc": gacc or {}}
     env = dict(zip(f.body.block.args, [11, 22, 33, c0, c1, lb, ub, st]))
     run_ir(f.body.block, env, m)
     return m["ev"]
@@ -788,6 +882,14 @@ class C04(Prop):
                 yield c
         for _ in range(30 if quick else 500):
             c = self.gen_threaded_case(rng)
+            if c is not None:
+                yield c
+        for _ in range(40 if quick else 600):
+            c = self.gen_group_case(rng)
+            if c is not None:
+                yield c
+        for _ in range(8 if quick else 60):
+            c = self.gen_group_case(rng, malformed=True)
             if c is not None:
                 yield c
         for c in self.malformed_cases(rng, 12 if quick else 60):
@@ -895,6 +997,100 @@ class C04(Prop):
         except BaseException:
             return None
         return {"kind": "lower", "accs": [a], "mlir": snaxrun.text(m), "pre": "threaded", "envs": rng.sample(range(len(ENVS)), 4)}
+
+    def gen_group_case(self, rng, malformed=False):
+        """snax_gemmx kernels with channel-specific quantisation (launch op carrying m / shift_vals / mult_vals,
+        2..3 groups of n channels), two or three in sequence or one in a loop, through the real
+        accfg-trace-states + accfg-dedup: the second setup loses the shift / mult / M fields it shares with the
+        first.  Variants: same scales again, other scales, a plain launch after a channel-group launch."""
+        kind = rng.choice(["nchunk", "few", "nofield"]) if malformed else None
+        n = rng.choice([6, 3, 5]) if kind == "nchunk" else rng.choice([4, 8])
+        a = {"acc": "gemmx", "cfg": gen_cfg(rng, nmax=2), "m": rng.randint(1, 16), "n": n, "k": rng.randint(1, 16)}
+        f, l, b = acc_op_tables(build_acc(a).generate_acc_op())
+        st, tk = '!accfg.state<"snax_gemmx">', '!accfg.token<"snax_gemmx">'
+        ptr = f[0][0]
+
+        def scales(groups):
+            return ([rng.randint(0, 40) for _ in range(groups * n)], [rng.randint(-50, 2000) for _ in range(groups * n)])
+
+        def word(ch):
+            return sum((x & 0xFFFFFFFF) << (8 * k) for k, x in enumerate(ch)) & 0xFFFFFFFF
+        lines = []
+        consts = {}
+
+        def cst(v):
+            if v not in consts:
+                consts[v] = f"%k{len(consts)}"
+            return consts[v]
+
+        attr_cut = [None]
+
+        def kernel(idx, ptrval, sh, mu, m_, grouped, ind="  "):
+            fields = [f'"{ptr}" = {ptrval} : i32']
+            for j in range(n):
+                fields.append(f'"mult_{j}" = {cst(mu[j])} : i32')
+            for c in range((n + 3) // 4):
+                fields.append(f'"shift_{c}" = {cst(word(sh[4 * c:4 * c + 4]))} : i32')
+            fields.append(f'"M" = {cst(m_)} : i32')
+            fields.append(f'"temporal_loop_bound" = {cst(m_)} : i32')
+            if rng.random() < 0.3:
+                rng.shuffle(fields)
+            attrs = ""
+            if grouped:
+                mu_a = mu if attr_cut[0] is None else mu[:attr_cut[0]]
+                attrs = (" {mult_vals = array<i32: " + ", ".join(map(str, mu_a)) + ">, shift_vals = array<i8: "
+                         + ", ".join(map(str, sh)) + f">, m = {m_} : i32}}")
+            lp = (["launch_streamer", "launch_gemmx"], "%lv, %lw") if rng.random() < 0.6 else (["launch_gemmx", "launch_streamer"], "%lw, %lv")
+            return [f'{ind}%s{idx} = accfg.setup "snax_gemmx" to ({", ".join(fields)}) : {st}',
+                    f'{ind}%t{idx} = "accfg.launch"({lp[1]}, %s{idx}) <{{param_names = ["{lp[0][0]}", "{lp[0][1]}"], '
+                    f'accelerator = "snax_gemmx"}}>{attrs} : (i5, i5, {st}) -> {tk}',
+                    f'{ind}"accfg.await"(%t{idx}) : ({tk}) -> ()']
+        g1 = rng.choice([2, 2, 3])
+        sh1, mu1 = scales(g1)
+        m1 = rng.choice([g1 * rng.randint(1, 9), rng.randint(1, 40)])
+        shape = rng.choice(["seq_same", "seq_same", "seq_other", "loop", "loop", "plain_after", "three"])
+        if malformed:
+            shape = "seq_same"
+            if kind == "few":
+                attr_cut[0] = max(0, n - 1)
+            elif kind == "nofield":
+                gone = rng.choice(["M", "temporal_loop_bound", "mult_1", "shift_0"])
+                f = [x for x in f if x[0] != gone]
+        ptrs = ["%x", "%y", "%z"]
+        if shape == "loop":
+            lines += kernel(1, "%x", sh1, mu1, m1, True) if rng.random() < 0.5 else []
+            lines.append("  scf.for %i = %lb to %ub step %st {")
+            lines.append("    %iv = arith.index_cast %i : index to i32")
+            lines += kernel(2, "%iv", sh1, mu1, m1, True, "    ")
+            lines.append("  }")
+        else:
+            lines += kernel(1, ptrs[0], sh1, mu1, m1, True)
+            if rng.random() < 0.3:
+                lines.append('  func.call @g() {"accfg.effects" = #accfg.effects<none>} : () -> ()')
+            if shape in ("seq_same", "three"):
+                lines += kernel(2, ptrs[1], sh1, mu1, m1, True)
+            if shape == "seq_other":
+                sh2, mu2 = scales(rng.choice([2, 3]))
+                mu2[:n // 2] = mu1[:n // 2]          # shares some registers with the first kernel
+                lines += kernel(2, ptrs[1], sh2, mu2, rng.randint(2, 40), True)
+            if shape == "plain_after":
+                lines += kernel(2, ptrs[1], sh1[:n], mu1[:n], m1, False)
+            if shape == "three":
+                lines += kernel(3, ptrs[2], sh1, mu1, m1, True)
+        body = "".join(f"  {nm} = arith.constant {v} : i32\n" for v, nm in consts.items()) + "\n".join(lines)
+        src = decl_text("snax_gemmx", f, l, b) + FUNC_HEAD + body + "\n  func.return\n}\n"
+        try:
+            pre = snaxrun.run_passes(src, "accfg-trace-states,accfg-dedup")
+            pm = snaxrun.parse(pre)
+            pm.verify()
+            if not dominance_ok(pm):
+                return None
+        except BaseException:
+            return None
+        c = {"kind": "lower", "accs": [a], "mlir": pre, "pre": "group:" + shape, "envs": rng.sample(range(len(ENVS)), 4)}
+        if malformed:
+            c["malformed"] = True
+        return c
 
     def malformed_cases(self, rng, n):
         hw = {"acc": "hwpe"}
@@ -1118,6 +1314,8 @@ class C04(Prop):
         if kind == "lower":
             module = snaxrun.parse(case["mlir"])
             data = name_values(module)
+            _GACC.clear()
+            _GACC.update(group_accs(case["accs"]))
             return [{"fn": "c04.lower", "args": {"decls": module_decls(module, case["accs"]),
                                                   "prog": src_block(get_func(module).body.block, data)}}]
         if kind == "rocc":
@@ -1225,6 +1423,10 @@ class C04(Prop):
                 if not case.get("malformed"):
                     v(f"lowering raised {impl_out['raised']} on a well-formed program: {impl_out.get('msg', '')[:200]}")
                 return bad
+            if case.get("malformed"):
+                v("the lowering accepted a program that names an undeclared accelerator / field or an ill-formed launch: "
+                  "some configured value cannot have reached a declared register")
+                return bad
             if impl_out.get("states", 0) != 0:
                 v(f"{impl_out['states']} accfg.state-typed values survive the lowering")
             return bad + self._oracle_exec(case)
@@ -1264,9 +1466,10 @@ class C04(Prop):
         ctx = make_ctx(case["accs"])
         clearing = {n for n in decls if n in set(ctx.registered_accelerator_names) and isinstance(ctx.get_acc(n), SNAXPollingBarrier)}
         fb, fa = get_func(before), get_func(after)
+        gacc = group_accs(case["accs"])
         for e in case["envs"]:
             try:
-                ta = run_func(fb, e)
+                ta = run_func(fb, e, gacc)
             except Undef:
                 continue
             try:
@@ -1274,6 +1477,12 @@ class C04(Prop):
             except Undef as ex:
                 bad.append({"what": f"lowered IR uses an undefined value ({ex}) in env {ENVS[e]}", "finding": None})
                 break
+            grouped = any(ev[0] == "GEND" for ev in ta)
+            if grouped and not overlap:
+                r = self._observe(ta, tb, decls, launch_addrs, clearing, ENVS[e])
+                if r:
+                    bad.append(r)
+                    break
             exp = []
             for ev in ta:
                 if ev[0] == "F":
@@ -1285,6 +1494,8 @@ class C04(Prop):
                     if ev[1] in clearing:
                         # hardware protocol of the HWPE barrier (docstring of SNAXPollingBarrier): clear 0x3c5 after the poll
                         exp.append(("w", 965, 0))
+                elif ev[0] == "GEND":
+                    pass
                 else:
                     exp.append(ev)
             got = tb
@@ -1295,28 +1506,59 @@ class C04(Prop):
                 break
             # register contents at every launch: address-indexed vs field-indexed (accelerators of one module that
             # overlap in address space sit behind different cores: no common register file to compare)
-            if overlap:
+            if overlap or grouped:
                 continue
-            regs_f, regs_a = {}, {}
-            ia = 0
-            for ev in ta:
-                if ev[0] == "F":
-                    regs_f[(ev[1], ev[2])] = ev[3]
-                if ev[0] == "L":
-                    # advance the CSR trace to the matching launch write
-                    while ia < len(tb) and not (tb[ia][0] == "w" and tb[ia][1] in launch_addrs):
-                        if tb[ia][0] == "w":
-                            regs_a[tb[ia][1]] = tb[ia][2]
-                        ia += 1
-                    ia += 1
-                    for (acc, fld), val in regs_f.items():
-                        if decls[acc][0][fld] == 965 and clearing:
-                            continue
-                        if regs_a.get(decls[acc][0][fld]) != val:
-                            bad.append({"what": f"at a launch, register {decls[acc][0][fld]} holds {regs_a.get(decls[acc][0][fld])} but "
-                                                f"field {acc}.{fld} is {val} (env {ENVS[e]})", "finding": None})
-                            return bad
+            r = self._observe(ta, tb, decls, launch_addrs, clearing, ENVS[e])
+            if r:
+                bad.append(r)
+                return bad
         return bad
+
+    @staticmethod
+    def _observe(ta, tb, decls, launch_addrs, clearing, env):
+        """at every write to a launch register the address-indexed register file must hold, for every configured
+        field, the value in effect at accfg level.  Inside a channel-group launch the value in effect is the one
+        the launch op prescribes for the group being started (M / temporal_loop_bound = m // groups, the group's
+        shift words and multipliers); at its streamer launch the shift / mult registers (array configuration,
+        programmed per group afterwards) are not yet constrained.  After the op the accfg state is what the
+        setups said (that is what accfg-dedup relies on)."""
+        regs_f, regs_a, overlay = {}, {}, {}
+        group_seen = set()
+        ia = 0
+        nl = 0
+        for ev in ta:
+            if ev[0] == "F":
+                (overlay if len(ev) > 4 else regs_f)[(ev[1], ev[2])] = ev[3]
+            elif ev[0] == "GEND":
+                overlay = {}
+                group_seen.add(ev[1])
+            elif ev[0] == "L":
+                nl += 1
+                tag = ev[4] if len(ev) > 4 else None
+                while ia < len(tb) and not (tb[ia][0] == "w" and tb[ia][1] in launch_addrs):
+                    if tb[ia][0] == "w":
+                        regs_a[tb[ia][1]] = tb[ia][2]
+                    ia += 1
+                if ia >= len(tb) or tb[ia][1] != decls[ev[1]][1].get(ev[2]) or tb[ia][2] != ev[3]:
+                    return {"what": f"launch write {nl} ({ev[1]}.{ev[2]} <- {ev[3]}) has no counterpart at CSR level "
+                                    f"(found {tb[ia] if ia < len(tb) else None}) (env {env})", "finding": None}
+                ia += 1
+                for key in sorted(set(regs_f) | set(overlay)):
+                    acc, fld = key
+                    quant = fld.startswith("shift_") or fld.startswith("mult_")
+                    if tag == "GS" and quant:
+                        continue
+                    addr = decls[acc][0].get(fld)
+                    if addr is None or (addr == 965 and clearing):
+                        continue
+                    val = overlay.get(key, regs_f.get(key))
+                    if regs_a.get(addr) != val:
+                        known = (tag is None and acc in group_seen and (quant or fld in ("M", "temporal_loop_bound")))
+                        where = {None: "a launch", "GS": "the streamer launch of a channel-group launch",
+                                 "GG": "a launch_gemmx write of a channel-group launch"}[tag]
+                        return {"what": f"at {where} (launch write {nl}: {ev[2]}), register {addr} holds {regs_a.get(addr)} but "
+                                        f"field {acc}.{fld} is {val} (env {env})", "finding": "DC04c" if known else None}
+        return None
 
     def _oracle_rocc(self, case):
         from snaxc.dialects import accfg
@@ -1463,6 +1705,8 @@ class C04(Prop):
             k += ":" + "+".join(a["acc"] for a in case["accs"]) + (":malformed" if case.get("malformed") else "")
             if carries_state_and_data(case["mlir"]):
                 k += ":state+2data"
+            if str(case.get("pre", "")).startswith("group:"):
+                k += ":" + case["pre"]
         if isinstance(impl_out, dict) and "raised" in impl_out:
             k += ":raised:" + impl_out["raised"]
         return k
